@@ -91,6 +91,7 @@ package signature
 //@   pure
 //@ interface func (Signer).Sign(s, payload)
 //@   logged
+//@   ensures err == nil ==> (forall k :: 0 <= k && k < len(result1) ==> result1[k] != nil)
 
 //@ func RegisterEnvelopeType(mediaType, newFunc, parseFunc)
 //@   ensures [ok] (newFunc != nil && parseFunc != nil) <==> result == nil
